@@ -249,7 +249,7 @@ def is_permutation_rows(P, res, name, ax, src, label):
     return rows
 
 
-OPS = ["select", "select_dup", "delete_int", "delete_list", "delete_slice", "insert_obj", "insert_arr", "adjoin_obj", "adjoin_arr", "concat",
+OPS = ["select", "select_dup", "select_neg", "delete_neg", "delete_negs", "delete_int", "delete_list", "delete_slice", "insert_obj", "insert_arr", "adjoin_obj", "adjoin_arr", "concat",
        "append_obj", "remove", "incorp_obj", "reorder", "sort", "group", "ungroup"]
 
 
@@ -277,6 +277,14 @@ def apply_op(name, ax, op, a, b, generic=False):
     if op == "select_dup":
         idx = [0, 0, n - 1]
         return call("select", idx), [("A", i) for i in idx], False
+    if op == "select_neg":
+        # from-the-end indices (numpy.take semantics) mixed with ordinary ones
+        idx = [-1, 0, -n]
+        return call("select", idx), [("A", i % n) for i in idx], False
+    if op == "delete_neg":
+        return call("delete", -1), A[:-1], False
+    if op == "delete_negs":
+        return call("delete", [-1, 0]), A[1:-1], False
     if op == "delete_int":
         return call("delete", 0), A[1:], False
     if op == "delete_list":
@@ -350,10 +358,11 @@ class OneOp(Harness):
         L2 = dict(L)
         L2[ax] = self.params.get("len2", 1)
         absent = tuple(self.params.get("absent", ()))
+        absent_b = absent + tuple(self.params.get("absent_b", ()))      # labels the second operand alone comes without
         a = build(mk, name, L, "A", absent)
-        b = build(mk, name, L2, "B", absent)
+        b = build(mk, name, L2, "B", absent_b)
         ref = build(mk, name, L, "A", absent)      # identical constants: the untouched reference copy of A
-        refb = build(mk, name, L2, "B", absent)
+        refb = build(mk, name, L2, "B", absent_b)
         pre = self.params.get("pre")
         if pre == "grouped":
             getattr(a, "group_" + ax)()
@@ -501,7 +510,7 @@ def obligations(tier):
             if AXES[ax]["grp"] is None:
                 ops = [o for o in ops if o not in ("group", "ungroup")]
             if name in SQUARE and ax == "taxa":
-                ops = [o for o in ops if o in ("select", "select_dup", "delete_int", "delete_list", "remove", "reorder", "sort", "group", "ungroup")]
+                ops = [o for o in ops if o in ("select", "select_dup", "select_neg", "delete_neg", "delete_negs", "delete_int", "delete_list", "remove", "reorder", "sort", "group", "ungroup")]
             for op in ops:
                 for pre in ((None, "grouped") if (AXES[ax]["grp"] and not (name in SCALED and op not in ("reorder", "remove", "sort", "ungroup"))) else (None,)):
                     if tier == "quick" and pre == "grouped" and op not in ("reorder", "remove", "append_obj", "incorp_obj", "select", "sort", "ungroup", "delete_int"):
@@ -510,6 +519,11 @@ def obligations(tier):
                         h = OneOp(cls=name, ax=ax, op=op, pre=pre, generic=generic, len=3 if op not in ("sort", "group") else (2 if tier == "quick" else 3))
                         h.weight = 30 if op in ("sort", "group") or pre == "grouped" else 3
                         obs.append(h)
+            # the block brought in carries no names (first label field absent in the second operand only), lengths 1 and 3
+            for op in ("adjoin_obj", "append_obj", "insert_obj", "incorp_obj"):
+                if op in ops and ax == "taxa":      # the trait axis refuses a name-less block with an explicit error (by design)
+                    for len2 in ((1,) if tier == "quick" else (1, 3)):
+                        obs.append(OneOp(cls=name, ax=ax, op=op, pre=None, generic=False, len=2, len2=len2, absent_b=[AXES[ax]["fields"][0][0]]))
             if tier == "thorough":
                 for absent in ([AXES[ax]["fields"][0][0]], [AXES[ax]["fields"][-1][0]]):
                     for op in ("select", "insert_obj", "adjoin_obj", "remove", "reorder"):
